@@ -99,6 +99,11 @@ func (c *c02ctx) r1Panics() {
 			if !ok {
 				return
 			}
+			// the protocol checks the compiler generates around a range-over-func loop (iterator resumed after exit,
+			// yield called after return): they guard the iterator, not the input
+			if cm := pn.Block().Comment; strings.HasPrefix(cm, "rangefunc.") || strings.HasPrefix(cm, "yield-") || fn.Synthetic == "range-over-func yield" && !pn.Pos().IsValid() {
+				return
+			}
 			key := c.key(fn, "panic")
 			if why, ok := isPlanTime(fn); ok {
 				r.OK("C02.R1", key, pn.Pos(), "plan-time panic (%s): decided for every repository type by C01.P1", why)
@@ -1212,6 +1217,35 @@ func (c *c02ctx) r4Indexing() {
 					r.Bad("C02.R4", key, pos, "index %d of %s is not covered by a length guard: input with a shorter value panics (index out of range)", kc, describeVal(x))
 					return
 				}
+				// a constant string (digit table) indexed by a masked or shifted small value
+				if k, isK := x.(*ssa.Const); isK && isStringConst(k) {
+					n := int64(len(constStringVal(k)))
+					iv := idx
+					if cv, ok := iv.(*ssa.Convert); ok {
+						iv = cv.X
+					}
+					bound := int64(-1)
+					if bo, ok := iv.(*ssa.BinOp); ok {
+						if m, isM := constIntVal(bo.Y); isM {
+							switch bo.Op {
+							case token.AND:
+								bound = m
+							case token.SHR:
+								if bt, ok := bo.X.Type().Underlying().(*types.Basic); ok && bt.Kind() == types.Uint8 && m >= 0 && m < 8 {
+									bound = 255 >> uint(m)
+								}
+							case token.REM:
+								if bt, ok := bo.X.Type().Underlying().(*types.Basic); ok && bt.Info()&types.IsUnsigned != 0 && m > 0 {
+									bound = m - 1
+								}
+							}
+						}
+					}
+					if bound >= 0 && bound < n {
+						r.OK("C02.R4", key, pos, "constant string of %d bytes indexed by a value masked/shifted to at most %d", n, bound)
+						return
+					}
+				}
 				if c.loopIndexBounded(x, idx, in) {
 					r.OK("C02.R4", key, pos, "loop index bounded by len of the indexed value")
 					return
@@ -1602,6 +1636,10 @@ func (c *c02ctx) r5NoWrite() {
 				}
 				key := c.key(fn, "store-elem")
 				if tainted(ia.X, 0) {
+					if why, ok := aliasWriteDisjoint(ttlvFns, fn, ia.X, x, func(v ssa.Value) bool { return tainted(v, 0) }); ok {
+						r.OK("C02.R5", key, x.Pos(), "%s", why)
+						return
+					}
 					nSrc++
 					r.Bad("C02.R5", key, x.Pos(), "%s writes an element of a slice that aliases the caller's input buffer: decoding mutates the input, and decoding the same bytes again gives a different result", fnKey(fn))
 				} else if c.D[fn] {
@@ -2472,4 +2510,105 @@ func errorEdgeStaysInLoop(call ssa.Value, body map[*ssa.BasicBlock]bool) bool {
 		}
 	}
 	return false
+}
+
+// aliasWriteDisjoint: fn stores into an element of its slice parameter prm, and some caller passes a slice that
+// aliases the input. The store is harmless when the condition under which fn writes and the condition under which
+// a caller hands over the input itself (rather than a copy) exclude each other. Both are predicates over the length
+// and the first byte of the same slice (the sign bit of a big integer): they are evaluated for lengths 0..64 and
+// 2^20 and the 256 byte values.
+func aliasWriteDisjoint(fns []*ssa.Function, fn *ssa.Function, target ssa.Value, st *ssa.Store, tainted func(ssa.Value) bool) (string, bool) {
+	prm, ok := target.(*ssa.Parameter)
+	if !ok {
+		return "", false
+	}
+	pi := -1
+	for i, q := range fn.Params {
+		if q == prm {
+			pi = i
+		}
+	}
+	if pi < 0 {
+		return "", false
+	}
+	// valuation of "first byte of base" and "len(base)" for one concrete (length, first byte) pair
+	leafOf := func(base ssa.Value, n, b int64) func(ssa.Value) (int64, bool) {
+		return func(v ssa.Value) (int64, bool) {
+			if ld, ok := v.(*ssa.UnOp); ok && ld.Op == token.MUL {
+				if ia, ok := ld.X.(*ssa.IndexAddr); ok && ia.X == base {
+					if k, ok := constIntVal(ia.Index); ok && k == 0 {
+						return b, true
+					}
+				}
+			}
+			if call, ok := v.(*ssa.Call); ok {
+				if bi, ok := call.Call.Value.(*ssa.Builtin); ok && bi.Name() == "len" && len(call.Call.Args) == 1 && call.Call.Args[0] == base {
+					return n, true
+				}
+			}
+			return 0, false
+		}
+	}
+	lens := []int64{1 << 20}
+	for n := int64(0); n <= 64; n++ {
+		lens = append(lens, n)
+	}
+	writeConds := dominatingConds(st.Block())
+	evaluable := false
+	for _, dc := range writeConds {
+		if _, ok := evalLeafExpr(dc.cond, leafOf(prm, 1, 0), 0); ok {
+			evaluable = true
+		}
+	}
+	if !evaluable {
+		return "", false
+	}
+	nSites := 0
+	for _, f := range fns {
+		okAll := true
+		allInstrs(f, func(in ssa.Instruction) {
+			call := callOf(in)
+			if call == nil || call.StaticCallee() != fn || pi >= len(call.Args) {
+				return
+			}
+			a := call.Args[pi]
+			if !tainted(a) {
+				return
+			}
+			nSites++
+			ph, isPhi := a.(*ssa.Phi)
+			if !isPhi {
+				okAll = false
+				return
+			}
+			for i, e := range ph.Edges {
+				if !tainted(e) {
+					continue
+				}
+				pred := ph.Block().Preds[i]
+				conds := dominatingConds(pred)
+				if cnd, isTrue, ok := edgeTaken(pred, ph.Block()); ok {
+					conds = append(conds, domCond{cnd, isTrue, pred})
+					conds = append(conds, expandShortCircuit(cnd, isTrue, pred, 0)...)
+				}
+				for _, n := range lens {
+					for b := int64(0); b < 256; b++ {
+						if condsHoldFor(conds, leafOf(e, n, b)) && condsHoldFor(writeConds, leafOf(prm, n, b)) {
+							okAll = false
+						}
+						if n == 0 {
+							break // no first byte
+						}
+					}
+				}
+			}
+		})
+		if !okAll {
+			return "", false
+		}
+	}
+	if nSites == 0 {
+		return "", false
+	}
+	return fmt.Sprintf("%s writes its parameter only under a condition on the first byte that every caller passing the input itself excludes (%d call site(s), both predicates evaluated for lengths 0..64, 2^20 and the 256 byte values): the input is never modified", fnKey(fn), nSites), true
 }
